@@ -391,6 +391,9 @@ class LatticeColumn:
         while matching.obs_ne >= len(self.o):
             self.o.append({})
         c = self.o[matching.obs_ne]
+        if matching.key in c and c[matching.key].stop and not matching.stop:
+            # Stopped matchings are only kept for inspection (debug logging), drop the placeholder
+            del c[matching.key]
         if matching.key in c:
             other_matching = c[matching.key]  # type: BaseMatching
             other_matching.update(matching)
@@ -928,6 +931,26 @@ class BaseMatcher:
         return False
 
     @staticmethod
+    def _only_live(m_next, lattice):
+        """Stopped matchings only exist when debug logging is on (otherwise next() returns None).
+        Keep them in the lattice for inspection but do not let them take part in the search,
+        such that the result is the same with and without debug logging.
+
+        :param m_next: Result of BaseMatching.next
+        :param lattice: Dictionary (layer in the lattice) in which m_next would be stored
+        :return: m_next, or None if m_next is a stopped matching
+        """
+        if m_next is None:
+            return None
+        if m_next.stop:
+            if m_next.key not in lattice:
+                lattice[m_next.key] = m_next
+            return None
+        if m_next.key in lattice and lattice[m_next.key].stop:
+            del lattice[m_next.key]
+        return m_next
+
+    @staticmethod
     def _insert_tmp(m_next, lattice):
         if m_next.key in lattice:
             return lattice[m_next.key].update(m_next)
@@ -962,7 +985,7 @@ class BaseMatcher:
                     if m.edge_m.l2 != nbr_label2 and m.edge_m.l1 != nbr_label2:
                         edge_m = Segment(nbr_label1, nbr_loc1, nbr_label2, nbr_loc2)
                         edge_o = Segment(f"O{obs_idx}", obs, f"O{obs_idx+1}", obs_next)
-                        m_next = m.next(edge_m, edge_o, obs=obs_idx, obs_ne=nb_ne)
+                        m_next = self._only_live(m.next(edge_m, edge_o, obs=obs_idx, obs_ne=nb_ne), cur_lattice_new)
                         if m_next is not None:
                             if m_next.key in cur_lattice_new:
                                 if m_next.shortkey in lattice_best:
@@ -1020,7 +1043,7 @@ class BaseMatcher:
                     if m.edge_m.l1 != nbr_label:
                         edge_m = Segment(nbr_label, nbr_loc)
                         edge_o = Segment(f"O{obs_idx}", obs, f"O{obs_idx+1}", obs_next)
-                        m_next = m.next(edge_m, edge_o, obs=obs_idx, obs_ne=nb_ne)
+                        m_next = self._only_live(m.next(edge_m, edge_o, obs=obs_idx, obs_ne=nb_ne), cur_lattice_new)
                         if m_next is not None:
                             if m_next.key in cur_lattice_new:
                                 cur_lattice_new[m_next.key].update(m_next)
@@ -1074,7 +1097,7 @@ class BaseMatcher:
                     if m.edge_m.l1 != nbr_label2 and m.edge_m.l2 != nbr_label2:
                         edge_m = Segment(nbr_label1, nbr_loc1, nbr_label2, nbr_loc2)
                         edge_o = Segment(f"O{obs_idx+1}", obs_next)
-                        m_next = m.next(edge_m, edge_o, obs=obs_idx)
+                        m_next = self._only_live(m.next(edge_m, edge_o, obs=obs_idx), self.lattice[obs_idx].dict(0))
                         if m_next is not None:
                             if m_next.shortkey in lattice_best:
                                 # if m_next.dist_obs < lattice_best[m_next.shortkey].dist_obs:
@@ -1118,7 +1141,7 @@ class BaseMatcher:
                         # edge_m = Segment(m.edge_m.l1, m.edge_m.p1, nbr_label, nbr_loc)
                         edge_m = Segment(nbr_label, nbr_loc)
                         edge_o = Segment(f"O{obs_idx+1}", obs_next)
-                        m_next = m.next(edge_m, edge_o, obs=obs_idx)
+                        m_next = self._only_live(m.next(edge_m, edge_o, obs=obs_idx), self.lattice[obs_idx].dict(0))
                         if m_next is not None:
                             if m_next.shortkey in lattice_best:
                                 # if m_next.dist_obs < lattice_best[m_next.shortkey].dist_obs:
